@@ -353,12 +353,18 @@ def gen_theory(rng, profile='c16'):
         # axioms free of it
         if not any(vs[0] in ps and vs[1] in ps for _, ps in th.ctors.values()):
             th.global_dvs.append(tuple(vs))
-            th.items.insert(2, ('d', tuple(vs)))
             th.features.add('global_dv')
-            for ax in th.axioms:
-                for x in (ax, ax.twin):
-                    if x is not None:
-                        x.gdvs = th.gdvs_for(x.vars)
+            if rng.random() < 0.5:
+                th.items.insert(2, ('d', tuple(vs)))
+                for ax in th.axioms:
+                    for x in (ax, ax.twin):
+                        if x is not None:
+                            x.gdvs = th.gdvs_for(x.vars)
+            else:
+                # the $d comes AFTER the axioms: it constrains the lemmas that follow, not the axioms declared before it
+                # (a later lemma may instantiate such an axiom with non-disjoint terms)
+                th.items.append(('d', tuple(vs)))
+                th.features.add('global_dv_after_axioms')
     # interleave some $f later in the file (as the shipped slices do), keeping relative order
     if rng.random() < 0.3:
         fs = [it for it in th.items if it[0] == 'f']
@@ -1126,3 +1132,35 @@ def make_c17_case(rng, nlemmas=None, style=None):
         raise AssertionError(f'G6(C17) produced a database that O6(b) rejects: {err}\n{text}')
     return {'text': text, 'lemmas': [l.label for l in th.lemmas], 'features': sorted(set(th.features) | feats),
             'f_labels': [th.f_label[v] for v in th.f_order], 'theory': th}
+
+
+# ------------------------------------------------------------------------- C17: a top-level $d that comes after an axiom
+def late_dv_case(rng):
+    """An axiom over two variables, THEN a top-level $d on those variables, then a lemma that instantiates the axiom with
+    non-disjoint terms (legal: the $d was not in force when the axiom was declared) and a control lemma that needs the $d.
+    Returns {'text', 'lemmas', 'features'}; the text is verified by O6(b)."""
+    from ..oracles import mm
+    n = rng.randint(3, 5)
+    names = [f'ph{i}' for i in range(n)]
+    order = names[:]
+    if rng.random() < 0.5:
+        rng.shuffle(order)
+    i, j = rng.sample(range(n), 2)
+    k = rng.choice([x for x in range(n)])
+    rel = rng.choice(['\\r', '\\rel', '\\s'])
+    lines = ['$c #Pattern |- ( ) \\imp ' + rel + ' $.', '$v ' + ' '.join(names) + ' $.']
+    for v in order:
+        lines.append(f'{v}-is-pattern $f #Pattern {v} $.')
+    lines.append('imp-is-pattern $a #Pattern ( \\imp ph0 ph1 ) $.')
+    lines.append(f'rel-is-pattern $a #Pattern ( {rel} ph0 ph1 ) $.')
+    lines.append(f'ax-rel $a |- ( {rel} {names[i]} {names[j]} ) $.')
+    if rng.random() < 0.5:
+        lines.append(f'ax-other $a |- ( \\imp {names[k]} {names[k]} ) $.')
+    lines.append(f'$d {names[i]} {names[j]} $.')
+    # the lemma uses one variable for both arguments of the axiom: proof = push its float twice, apply ax-rel
+    lines.append(f'lem-same $p |- ( {rel} {names[k]} {names[k]} ) $= ( ax-rel ) AAB $.')
+    text = '\n'.join(lines) + '\n'
+    db, err = mm.verify_text(text, strict=True)
+    if err is not None or any(v is not None for v in db.results.values()):
+        raise AssertionError(f'late_dv_case produced a database that O6(b) rejects: {err} {db.results if db else None}\n{text}')
+    return {'text': text, 'lemmas': ['lem-same'], 'features': ['global_dv_after_axioms', 'lemma_instantiates_earlier_axiom_non_disjointly']}
